@@ -720,8 +720,8 @@ def handlers : List (String × Handler) := [
   ("stack.mix", hStackMix), ("stack.glue", hStackGlue), ("stack.idxok", hStackIdxOk)
 ]
 
-/-- process one trace line -/
-def processLine (line : String) : String :=
+/-- process one trace line with a given handler table -/
+def processLineWith (handlers : List (String × Handler)) (line : String) : String :=
   if line.startsWith "#" then line
   else
     match line.splitOn " => " with
@@ -742,5 +742,8 @@ def processLine (line : String) : String :=
           | some out => lhs ++ " => " ++ out
       | [] => "bad-line"
     | [] => "bad-line"
+
+/-- process one trace line (handlers of this file only) -/
+def processLine (line : String) : String := processLineWith handlers line
 
 end Tmcg.Driver
